@@ -18,6 +18,7 @@ OPS = [
     ("ru", b"\n", None), ("ru", b"\r\n", None), ("ru", b"\n", 2), ("ru", b"\r\n", 4),
     ("rur", "blank", None), ("rur", "tok", 16), ("rur", "tok", 3),
     ("ruc",),
+    ("ru", b"\r\n\r\n", None), ("ru", b"\r\n\r\n", 30), ("ru", b"\n", 0), ("rur", "tok", 0),
 ]
 REGEX = {"blank": RX_BLANK, "tok": RX_TOK}
 
@@ -47,7 +48,16 @@ def run(ch, prog, chunk, bytewise=False):
                     for c in (rest, 1, 2, chunk - 1, chunk, chunk + 1):
                         if 0 < c <= rest and c not in sizes:
                             sizes.append(c)
-                    k = sizes[ch.choose(len(sizes), "seg")]
+                    # last option: everything that is left arrives together with the EOF
+                    c = ch.choose(len(sizes) + 1, "seg")
+                    if c == len(sizes):
+                        sock.feed(data[st["pos"]:])
+                        st["pos"] = len(data)
+                        sock.feed_eof()
+                        st["eof"] = True
+                        w.pump()
+                        return True
+                    k = sizes[c]
                 sock.feed(data[st["pos"]:st["pos"] + k])
                 st["pos"] += k
             elif not st["eof"]:
